@@ -22,7 +22,7 @@ def relpath(p, repo):
 class Elem:
     __slots__ = ("func", "block", "i", "cls", "op", "ty", "decl", "val", "strv",
                  "kidrefs", "loc", "macro", "text", "null", "label", "decls",
-                 "argty", "argdecl", "argderef", "argtext", "lv", "_kids", "_norm", "iline", "inlined")
+                 "argty", "argdecl", "argderef", "argtext", "lv", "_kids", "_norm", "iline", "inlined", "siteloc")
 
     def __init__(self, func, block, i, d, repo):
         self.func = func
@@ -41,7 +41,7 @@ class Elem:
         self.kidrefs = d.get("kids") or []
         loc = d.get("loc", "")
         self.loc = relpath(loc, repo)
-        self.macro = d.get("macro") or []
+        self.macro = (d.get("macro") or []) + ([d["inlined"]] if d.get("inlined") else [])      # sa/inline.py: a macro turned into a function keeps its name
         self.text = d.get("text", "")
         self.null = d.get("null", False)
         self.label = d.get("label")
@@ -53,6 +53,7 @@ class Elem:
         self.lv = d.get("lv", False)
         self.iline = d.get("iline")          # set by sa/inline.py on elements copied from a new static helper
         self.inlined = d.get("inlined")
+        self.siteloc = relpath(d["siteloc"], repo) if d.get("siteloc") else None      # where the helper this element was copied from is called
         self._kids = None
         self._norm = None
 
